@@ -97,6 +97,19 @@ fn case_expr(ce: &CaseExpression, slots: &mut Slots) -> Option<String> {
 /// label name (upper-cased) -> index, in order of definition
 struct Labels {
     map: HashMap<String, usize>,
+    /// `program_unshadowed`: a label `ZZ<name>` stands for the label `<name>` (see there)
+    unshadow: bool,
+}
+
+impl Labels {
+    /// the index of the label a jump names
+    fn target(&self, name: &str) -> Option<&usize> {
+        let key = name.to_ascii_uppercase();
+        match key.strip_prefix("ZZ") {
+            Some(rest) if self.unshadow => self.map.get(rest),
+            _ => self.map.get(&key),
+        }
+    }
 }
 
 /// collects the label definitions of a block; `in_step` = inside the body of a FOR with an explicit STEP
@@ -108,6 +121,9 @@ fn collect_labels(stmts: &Statements, in_step: bool, labels: &mut Labels) -> Opt
                     return None;
                 }
                 let key = name.to_string().to_ascii_uppercase();
+                if labels.unshadow && key.starts_with("ZZ") {
+                    continue;
+                }
                 if labels.map.contains_key(&key) {
                     return None;
                 }
@@ -279,16 +295,17 @@ fn sstmt(s: &Positioned<Statement>, slots: &mut Slots, labels: &Labels, out: &mu
             out.push(format!("(print {} {} {})", sx::list(items), r, c));
         }
         Statement::End | Statement::System => out.push(format!("(end {} {})", r, c)),
+        Statement::Label(name) if labels.unshadow && name.to_string().to_ascii_uppercase().starts_with("ZZ") => {}
         Statement::Label(name) => {
             let l = labels.map.get(&name.to_string().to_ascii_uppercase())?;
             out.push(format!("(label {} {} {} {})", l, hexs(&name.to_string()), r, c));
         }
         Statement::GoTo(name) => {
-            let l = labels.map.get(&name.to_string().to_ascii_uppercase())?;
+            let l = labels.target(&name.to_string())?;
             out.push(format!("(goto {} {} {})", l, r, c));
         }
         Statement::GoSub(name) => {
-            let l = labels.map.get(&name.to_string().to_ascii_uppercase())?;
+            let l = labels.target(&name.to_string())?;
             out.push(format!("(gosub {} {} {})", l, r, c));
         }
         Statement::Return(None) => out.push(format!("(return {} {})", r, c)),
@@ -307,8 +324,21 @@ pub struct JmpProgram {
 
 /// The linted program in the syntax of `RbModel.JmpL.Syntax`, or None if outside it.
 pub fn program(p: &Program) -> Option<JmpProgram> {
+    program_with(p, false)
+}
+
+/// The serialisation of a program that the checker itself may reject for a jump into a FOR body / SELECT CASE block
+/// (nothing linted exists for such a program): `p` is the linted *shadow* of the program, in which every jump under test
+/// names `ZZ<label>` instead of `<label>` and the labels `ZZ<label>:` are defined at the top level behind the last
+/// statement; here the shadow labels are dropped and the jumps are given the index of `<label>`, which yields the
+/// serialisation of the original program (same statements, same positions: the shadow names replace names only).
+pub fn program_unshadowed(p: &Program) -> Option<JmpProgram> {
+    program_with(p, true)
+}
+
+fn program_with(p: &Program, unshadow: bool) -> Option<JmpProgram> {
     let mut slots = Slots::new();
-    let mut labels = Labels { map: HashMap::new() };
+    let mut labels = Labels { map: HashMap::new(), unshadow };
     let mut main: Statements = vec![];
     for gs in p {
         match &gs.element {
